@@ -510,49 +510,65 @@ func respell(key, style string) string {
 
 func cfWholeBase(dir string) map[string]string {
 	return map[string]string{
-		"appender.con.type":               "Console",
-		"appender.con.layout.type":        "JSONLayout",
-		"appender.fil.type":               "File",
-		"appender.fil.fileDir":            dir,
-		"appender.fil.fileName":           `f\temp\new.log`, // backslashes followed by escape letters must survive the inline form
-		"appender.rol.type":               "RollingFile",
-		"appender.rol.fileDir":            dir,
-		"appender.rol.fileName":           "r.log",
-		"appender.rol.rotation":           "h",
-		"appender.rol.maxAge":             "24",
-		"appender.dis.type":               "Discard",
-		"appender.rec.type":               "Rec",
-		"logger.syn.type":                 "Logger",
-		"logger.syn.tags":                 "cf_a",
-		"logger.syn.level":                "info",
-		"logger.syn.appenderRef.ref":      "rec",
-		"logger.asy.type":                 "AsyncLogger",
-		"logger.asy.tags":                 "cf_b",
-		"logger.asy.bufferSize":           "${bufSize}",
-		"logger.asy.bufferFullPolicy":     "Block",
-		"logger.asy.appenderRef[0].ref":   "fil",
-		"logger.asy.appenderRef[1].ref":   "rol",
-		"logger.asy.appenderRef[1].level": "warn",
-		"logger.dsc.type":                 "Discard",
-		"logger.dsc.tags":                 "cf_c",
-		"logger.cns.type":                 "Console",
-		"logger.cns.tags":                 "cf_d",
-		"logger.fll.type":                 "File",
-		"logger.fll.tags":                 "cf_e",
-		"logger.fll.fileDir":              dir,
-		"logger.fll.fileName":             "fl.log",
-		"logger.rfl.type":                 "RollingFile",
-		"logger.rfl.tags":                 "cf_f_*",
-		"logger.rfl.fileDir":              dir,
-		"logger.rfl.fileName":             "app.log",
-		"logger.rfl.rotation":             "h",
-		"logger.rfl.separate":             "true",
-		"logger.root.type":                "Logger",
-		"logger.root.level":               "warn",
-		"logger.root.appenderRef.ref":     "con",
-		"bufSize":                         "256",
-		"enableCaller":                    "true",
-		"bufferCap":                       "4KB",
+		"appender.con.type":                "Console",
+		"appender.con.layout.type":         "JSONLayout",
+		"appender.fil.type":                "File",
+		"appender.fil.fileDir":             dir,
+		"appender.fil.fileName":            `f\temp\new.log`, // backslashes followed by escape letters must survive the inline form
+		"appender.rol.type":                "RollingFile",
+		"appender.rol.fileDir":             dir,
+		"appender.rol.fileName":            "r.log",
+		"appender.rol.rotation":            "h",
+		"appender.rol.maxAge":              "24",
+		"appender.dis.type":                "Discard",
+		"appender.rec.type":                "Rec",
+		"logger.syn.type":                  "Logger",
+		"logger.syn.tags":                  "cf_a",
+		"logger.syn.level":                 "info",
+		"logger.syn.appenderRef.ref":       "rec",
+		"logger.asy.type":                  "AsyncLogger",
+		"logger.asy.tags":                  "cf_b",
+		"logger.asy.bufferSize":            "${bufSize}",
+		"logger.asy.bufferFullPolicy":      "Block",
+		"logger.asy.appenderRef[0].ref":    "fil",
+		"logger.asy.appenderRef[1].ref":    "rol",
+		"logger.asy.appenderRef[1].level":  "warn",
+		"logger.dsc.type":                  "Discard",
+		"logger.dsc.tags":                  "cf_c",
+		"logger.cns.type":                  "Console",
+		"logger.cns.tags":                  "cf_d",
+		"logger.fll.type":                  "File",
+		"logger.fll.tags":                  "cf_e",
+		"logger.fll.fileDir":               dir,
+		"logger.fll.fileName":              "fl.log",
+		"logger.rfl.type":                  "RollingFile",
+		"logger.rfl.tags":                  "cf_f_*",
+		"logger.rfl.fileDir":               dir,
+		"logger.rfl.fileName":              "app.log",
+		"logger.rfl.rotation":              "h",
+		"logger.rfl.separate":              "true",
+		"logger.rfa.type":                  "RollingFile",
+		"logger.rfa.tags":                  "cf_g",
+		"logger.rfa.fileDir":               dir,
+		"logger.rfa.fileName":              "async.log",
+		"logger.rfa.rotation":              "h",
+		"logger.rfa.async":                 "true",
+		"logger.rfa.bufferSize":            "300",
+		"logger.rfa.bufferFullPolicy":      "DiscardOldest",
+		"logger.rfa.layout.type":           "JSONLayout",
+		"logger.rfa.layout.fileLineLength": "33",
+		"logger.rfd.type":                  "RollingFile",
+		"logger.rfd.tags":                  "cf_h",
+		"logger.rfd.fileDir":               dir,
+		"logger.rfd.fileName":              "asyncdef.log",
+		"logger.rfd.rotation":              "h",
+		"logger.rfd.async":                 "true",
+		"logger.root.type":                 "Logger",
+		"logger.root.level":                "warn",
+		"logger.root.appenderRef.ref":      "con",
+		"bufSize":                          "256",
+		"enableCaller":                     "true",
+		"bufferCap":                        "4KB",
 	}
 }
 
@@ -561,7 +577,11 @@ func exprForm(cfg map[string]string, prefix string) map[string]string {
 	return exprFormStyled(cfg, prefix, "camel")
 }
 
-// exprFormStyled additionally respells the keys inside the expression (identifiers cannot carry '-').
+// exprFlip reverses the order of the members written into inline expressions (nested sub-expressions first / last).
+var exprFlip bool
+
+// exprFormStyled additionally respells the keys inside the expression (identifiers cannot carry '-').  Members that
+// form an element with a type of its own (layout.type, layout.x ...) are written as a nested sub-expression.
 func exprFormStyled(cfg map[string]string, prefix, style string) map[string]string {
 	if style == "kebab" {
 		style = "snake"
@@ -569,23 +589,50 @@ func exprFormStyled(cfg map[string]string, prefix, style string) map[string]stri
 	out := map[string]string{}
 	var inner []string
 	typ := ""
+	quote := func(v string) string {
+		if _, err := strconv.ParseFloat(v, 64); err != nil && !isIdent(v) {
+			return strconv.Quote(v)
+		}
+		return v
+	}
+	nested := map[string]map[string]string{} // element name -> member -> value (only elements that declare a type)
 	for k, v := range cfg {
 		if strings.HasPrefix(k, prefix+".") {
 			rest := strings.TrimPrefix(k, prefix+".")
+			if i := strings.IndexByte(rest, '.'); i > 0 && !strings.Contains(rest[:i], "[") {
+				if _, hasType := cfg[prefix+"."+rest[:i]+".type"]; hasType {
+					if nested[rest[:i]] == nil {
+						nested[rest[:i]] = map[string]string{}
+					}
+					nested[rest[:i]][rest[i+1:]] = v
+					continue
+				}
+			}
 			if rest == "type" {
 				typ = v
 				continue
 			}
-			val := v
-			if _, err := strconv.ParseFloat(v, 64); err != nil && !isIdent(v) {
-				val = strconv.Quote(v)
-			}
-			inner = append(inner, respell(rest, style)+" = "+val)
+			inner = append(inner, respell(rest, style)+" = "+quote(v))
 		} else {
 			out[k] = v
 		}
 	}
+	for name, members := range nested {
+		var in []string
+		for mk, mv := range members {
+			if mk != "type" {
+				in = append(in, respell(mk, style)+" = "+quote(mv))
+			}
+		}
+		sort.Strings(in)
+		inner = append(inner, respell(name, style)+" = "+members["type"]+" { "+strings.Join(in, ", ")+" }")
+	}
 	sort.Strings(inner)
+	if exprFlip {
+		for i, j := 0, len(inner)-1; i < j; i, j = i+1, j-1 {
+			inner[i], inner[j] = inner[j], inner[i]
+		}
+	}
 	out[prefix+"!"] = typ + " { " + strings.Join(inner, ", ") + " }"
 	return out
 }
@@ -612,16 +659,19 @@ func cfWhole(r *hx.Result, rng *rand.Rand, tmp string, mutations int) {
 	reset := func() {
 		hx.Within(10*time.Second, func() { log.Destroy() })
 		log.VerifReset()
-		for _, t := range []string{"cf_a", "cf_b", "cf_c", "cf_d", "cf_e", "cf_f_x"} {
+		for _, t := range []string{"cf_a", "cf_b", "cf_c", "cf_d", "cf_e", "cf_f_x", "cf_g", "cf_h"} {
 			log.RegisterTag(t)
 		}
 	}
 	base := cfWholeBase(dir)
 	// 1. every spelling x flat / inline form of some sub-trees: must succeed, and instantiate what was written
 	for _, style := range []string{"camel", "kebab", "snake", "capital"} {
-		for _, form := range []string{"flat", "expr:appender.rol", "expr:logger.asy", "expr:logger.rfl", "expr:appender.con", "expr:appender.fil"} {
+		for fi, form := range []string{"flat", "expr:appender.rol", "expr:logger.asy", "expr:logger.rfl", "expr:appender.con", "expr:appender.fil",
+			"expr:logger.rfa", "expr:appender.con", "expr:logger.rfa", "expr:logger.rfd"} {
+			exprFlip = fi >= 7 // the later forms write nested sub-expressions first instead of last (or the other way round)
 			reset()
 			h := log.GetLogger("asy")
+			hrfa, hrfd := log.GetLogger("rfa"), log.GetLogger("rfd")
 			cfg := base
 			if strings.HasPrefix(form, "expr:") {
 				cfg = exprFormStyled(base, strings.TrimPrefix(form, "expr:"), style)
@@ -667,6 +717,27 @@ func cfWhole(r *hx.Result, rng *rand.Rand, tmp string, mutations int) {
 			if log.BufferCap.Load() != 4096 {
 				r.Violate("instantiated-values", desc, "property bufferCap=4KB not injected: %d", log.BufferCap.Load())
 			}
+			// the rolling-file logger in asynchronous mode: its attributes reach the logger that does the work
+			for name, hw := range map[string]*log.LoggerWrapper{"rfa": hrfa, "rfd": hrfd} {
+				rf, ok := log.VerifHandleLogger(hw).(*log.RollingFileLogger)
+				if !ok {
+					r.Violate("instantiated-values", desc, "logger %s is %T", name, log.VerifHandleLogger(hw))
+					continue
+				}
+				in, ok := log.VerifRollingInner(rf).(*log.AsyncLogger)
+				wantSize, wantPol := 300, log.BufferFullPolicyDiscardOldest
+				if name == "rfd" {
+					wantSize, wantPol = 10000, log.BufferFullPolicyDiscard
+				}
+				if !ok || in.BufferSize != wantSize || in.BufferFullPolicy != wantPol {
+					r.Violate("instantiated-values", desc, "rolling-file logger %s (async=true): inner logger %T %+v, want bufferSize %d policy %v", name, log.VerifRollingInner(rf), in, wantSize, wantPol)
+				}
+				if name == "rfa" {
+					if jl, ok := rf.Layout.(*log.JSONLayout); !ok || jl.FileLineLength != 33 {
+						r.Violate("instantiated-values", desc, "rolling-file logger rfa: layout %T %+v, configured JSONLayout with fileLineLength 33", rf.Layout, rf.Layout)
+					}
+				}
+			}
 		}
 	}
 	// 2. error classes: an error, never a panic
@@ -691,6 +762,12 @@ func cfWhole(r *hx.Result, rng *rand.Rand, tmp string, mutations int) {
 		{"missing required element", func(m map[string]string) { delete(m, "logger.syn.appenderRef.ref") }},
 		{"ill-typed int", func(m map[string]string) { m["bufSize"] = "many" }},
 		{"ill-typed level", func(m map[string]string) { m["logger.syn.level"] = "loud" }},
+		{"ill-typed level: unknown lower bound", func(m map[string]string) { m["logger.syn.level"] = "bogus~error" }},
+		{"ill-typed level: unknown upper bound", func(m map[string]string) { m["logger.syn.level"] = "info~bogus" }},
+		{"ill-typed level: both bounds unknown", func(m map[string]string) { m["logger.asy.appenderRef[1].level"] = "bogus~nosuch" }},
+		{"ill-typed reference level through a property", func(m map[string]string) {
+			m["logger.asy.appenderRef[1].level"], m["refLevel"] = "${refLevel}", "nosuch~error"
+		}},
 		{"ill-typed policy", func(m map[string]string) { m["logger.asy.bufferFullPolicy"] = "Maybe" }},
 		{"ill-typed rotation", func(m map[string]string) { m["appender.rol.rotation"] = "weekly" }},
 		{"ill-typed bool", func(m map[string]string) { m["logger.rfl.separate"] = "perhaps" }},
